@@ -280,7 +280,7 @@ func (c *Ctx) Finish() int {
 		"seed":           c.Seed,
 		"level":          c.Level,
 		"coverage":       cov,
-		"assumptions":    c.assumptions,
+		"assumptions":    append([]string{"bounded exploration: nothing is claimed beyond the listed bounds"}, c.assumptions...),
 		"wall_s":         wall,
 		"violations":     c.violTotal,
 		"known_findings": knownLines,
